@@ -387,3 +387,26 @@ Theorem xserver_id_restore : forall req u resp,
   f_id (downstream_reply (server_stream_id req) resp) = f_id req /\
   f_payload (downstream_reply (server_stream_id req) resp) = f_payload resp.
 Proof. intros. cbn. auto. Qed.
+
+(* A stream reset by its holder leaves no stale id behind: after XReset s (stream not marked by a connection reset) the
+   id of s is out of the client stream table and no entry of the table leads to s - a reply carrying that id later is
+   dropped (xconn_delivery_sound), it cannot reach whoever uses the stream object next. *)
+Theorem xconn_reset_no_stale_id : forall g c0 ops s, real_gen g -> c0 < two64 -> let x := xrun g ops (xinit c0) in
+  (s < nstreams x)%nat -> x_connreset (xst x s) = false ->
+  let x' := fst (xstep g x (XReset s)) in
+  lookup (x_id (xst x s)) (tbl x') = None /\ (forall id, lookup id (tbl x') <> Some s) /\
+  xstep g x' (XResponse (x_id (xst x s))) = (x', ODrop).
+Proof.
+  intros g c0 ops s Hg Hc x Hs Hcr x'.
+  assert (HI := xrun_inv g c0 ops Hg Hc). fold x in HI.
+  assert (Htbl : tbl x' = remove_key (x_id (xst x s)) (tbl x)).
+  { unfold x'. cbn [xstep]. apply Nat.ltb_lt in Hs. rewrite Hs, Hcr. cbn [fst]. unfold base_reset.
+    destruct (lookup (x_id (xst x s)) (tbl x)); destruct (x_alive _); reflexivity. }
+  assert (H1 : lookup (x_id (xst x s)) (tbl x') = None) by (rewrite Htbl; apply lookup_remove_key_same).
+  split; [exact H1|]. split.
+  - intros id Hl. rewrite Htbl in Hl.
+    apply lookup_In in Hl; [|apply remove_key_NoDup; apply (xi_nodup _ _ _ HI)].
+    apply remove_key_In in Hl. destruct Hl as [Hin Hne].
+    destruct (xi_tbl _ _ _ HI _ _ Hin) as [_ [Hi _]]. congruence.
+  - cbn [xstep]. rewrite H1. reflexivity.
+Qed.
